@@ -276,6 +276,7 @@ func (e *Engine) loadSpecs(externDir string) error {
 					if ol, ok := old.Loops[k]; ok {
 						ol.Invariants = append(ol.Invariants, v.Invariants...)
 						ol.Increases = append(ol.Increases, v.Increases...)
+						ol.Steps = append(ol.Steps, v.Steps...)
 						if v.Decreases != nil {
 							ol.Decreases = v.Decreases
 						}
@@ -1018,6 +1019,9 @@ func (e *Engine) ghostRelevant(name string) bool {
 					clause(c)
 				}
 				for _, c := range l.Increases {
+					clause(c)
+				}
+				for _, c := range l.Steps {
 					clause(c)
 				}
 				clause(l.Decreases)
